@@ -100,7 +100,7 @@ CHECKS = {
              "whether it succeeds or raises, by add_record sequences (update, constructors, unified, flattened, add_bundle of a document) and "
              "by allocation (c18_newRecord_wf, c18_addRecords_wf, c18_allocCont_wf); on a coherent container get_record(x) = filter of the "
              "record list by the URI x resolves to, for every spelling (c18_get_record, c18_spelling_independent); get_records(cls) = class "
-             "filter. Correspondence after every record-adding operation, in all 4 spellings, plus an independent scan oracle. All histories (Props/C18R): c18_reachable_wf - coherence of _records and _id_map after any sequence of the public mutators with any arguments; c18_get_record_reachable - get_record on any reachable container is the filter by the denoted URI, in insertion order. Every history (Props/C18S): the coherence invariant WF is also kept by add_record, update, add_bundle, flattened() and unified() of bundles and documents, with any arguments, whether they succeed or raise (dstep_wf18), so in every state the public interface can produce (ReachAny: mutators and deriving operations in any order) every container is coherent (c18_reachAny_wf) and get_record in every spelling finds exactly the records with that identifier, in insertion order - also in unified / flattened / updated documents and in their sources afterwards (c18_get_record_reachAny; instance: the merged record of a unified bundle).",
+             "filter. Correspondence after every record-adding operation, in all 4 spellings, plus an independent scan oracle. All histories (Props/C18R): c18_reachable_wf - coherence of _records and _id_map after any sequence of the public mutators with any arguments; c18_get_record_reachable - get_record on any reachable container is the filter by the denoted URI, in insertion order. Every history (Props/C18S): the coherence invariant WF is also kept by add_record, update, add_bundle, flattened() and unified() of bundles and documents, with any arguments, whether they succeed or raise (dstep_wf18), so in every state the public interface can produce (ReachAny: mutators and deriving operations in any order) every container is coherent (c18_reachAny_wf) and get_record in every spelling finds exactly the records with that identifier, in insertion order - also in unified / flattened / updated documents and in their sources afterwards (c18_get_record_reachAny; instance: the merged record of a unified bundle). Props/C18T: in every reachable state each record reference is listed once and the index has one entry per identifier URI (reachAny_wf2), so an index entry IS the sub-list of records carrying that identifier (entry_is_byId, Props/C08J).",
         note=A_COMMON + " 'prefix:local'/bare spellings denote what valid_qualified_name resolves them to (C03). The full-URI spelling "
              "needed a fix: commit (adopted default namespace).",
         technique="Lean 4 refinement proof (index = filter of list) by induction over heap operations + op-sequence correspondence",
@@ -155,7 +155,7 @@ CHECKS = {
              "record and ANY attribute list of a stored record, every offered (attribute, value) is represented in the result (inserted, or "
              "already present as an equal value under the single-value guard), everything the accumulator held is kept, and nothing else appears "
              "(addOne_general; built on C09's re-creation lemmas); unified() of documents and bundles compared with an independent specification "
-             "(union of attributes, first-occurrence order, ProvException iff formal conflict), idempotence, source unchanged. On the heap (Props/C08D): c08_mergeGroup_content (one fresh cell holding exactly the union of the group under the first member's kind and identifier; no existing cell written), c08_mergeAll_content and c08_unifiedRecords_content (the merge table maps every member of every group to such a record; the result is placeMerged of that table). End to end (Props/C08E): the reachable invariants are kept by the merge pass, so ProvBundle.unified() fills one new container with == copies, in order, of the placed list (c08_unifiedBundle_content; c08_unifiedBundle_reachable for every history of the public mutators without a prov:collection attribute object). ProvDocument.unified() (Props/C08F): c08_unifiedDoc_top - the new document's own records are == copies of the placed list and the loop over the bundles leaves them and every record cell alone (unifiedGo_keeps). Props/C08G: the deriving operations keep the reachable invariants together with 'no membership record' (Good2): add_record (good2_addRecord), ProvBundle.unified (good2_unifiedBundle), add_bundle (good2_addBundle), ProvDocument.unified (good2_unifiedDoc, success or error), flattened (good2_flattened) - so heaps produced by derived documents are again heaps to which the heap theorems apply. Props/C08H: the bundles of ProvDocument.unified() - unifiedGo_chain / c08_unifiedDoc_bundles: on success the new document lists exactly one bundle per source bundle, in order, each under an identifier with the URI of the source bundle's identifier (unifiedBundle_id, attachBundle_ok_id, validName_qn_uri) and each holding what ProvBundle.unified() makes of that source bundle (UnifiedOf: records in order, each same-identifier same-kind group replaced at the place of its first member by one record holding exactly the union), no later round of the loop changing an earlier result (unifiedGo_others, unifiedGo_keeps); concrete instance with a merging bundle. Props/C08I: Reach - the states reachable from nothing by the mutators AND the deriving operations (add_record, update, add_bundle, flattened, unified of bundles and documents, successful or not) in any order - all satisfy the invariants (reach_good2; update: good2_update), so every record of every such state is a stored record (c09_reach_stored) and the unified() theorems hold there without hypotheses on records, managers or indices (c08_unifiedBundle_reach); side condition only on mutator steps (no prov:collection attribute / membership record stored); instance: build, unify, add to the result, flatten it.",
+             "(union of attributes, first-occurrence order, ProvException iff formal conflict), idempotence, source unchanged. On the heap (Props/C08D): c08_mergeGroup_content (one fresh cell holding exactly the union of the group under the first member's kind and identifier; no existing cell written), c08_mergeAll_content and c08_unifiedRecords_content (the merge table maps every member of every group to such a record; the result is placeMerged of that table). End to end (Props/C08E): the reachable invariants are kept by the merge pass, so ProvBundle.unified() fills one new container with == copies, in order, of the placed list (c08_unifiedBundle_content; c08_unifiedBundle_reachable for every history of the public mutators without a prov:collection attribute object). ProvDocument.unified() (Props/C08F): c08_unifiedDoc_top - the new document's own records are == copies of the placed list and the loop over the bundles leaves them and every record cell alone (unifiedGo_keeps). Props/C08G: the deriving operations keep the reachable invariants together with 'no membership record' (Good2): add_record (good2_addRecord), ProvBundle.unified (good2_unifiedBundle), add_bundle (good2_addBundle), ProvDocument.unified (good2_unifiedDoc, success or error), flattened (good2_flattened) - so heaps produced by derived documents are again heaps to which the heap theorems apply. Props/C08H: the bundles of ProvDocument.unified() - unifiedGo_chain / c08_unifiedDoc_bundles: on success the new document lists exactly one bundle per source bundle, in order, each under an identifier with the URI of the source bundle's identifier (unifiedBundle_id, attachBundle_ok_id, validName_qn_uri) and each holding what ProvBundle.unified() makes of that source bundle (UnifiedOf: records in order, each same-identifier same-kind group replaced at the place of its first member by one record holding exactly the union), no later round of the loop changing an earlier result (unifiedGo_others, unifiedGo_keeps); concrete instance with a merging bundle. Props/C08I: Reach - the states reachable from nothing by the mutators AND the deriving operations (add_record, update, add_bundle, flattened, unified of bundles and documents, successful or not) in any order - all satisfy the invariants (reach_good2; update: good2_update), so every record of every such state is a stored record (c09_reach_stored) and the unified() theorems hold there without hypotheses on records, managers or indices (c08_unifiedBundle_reach); side condition only on mutator steps (no prov:collection attribute / membership record stored); instance: build, unify, add to the result, flatten it. Idempotence (Props/C18T, C08J, C08K): with two more invariants of every history (each record listed once, one index entry per identifier URI: reachAny_wf2) every group _unified_records() forms is exactly a key class (identifier URI, kind) of the record list (group_is_class, groupsOf_char, groupsOf_of_big); the merge table sends records with one key to one merged record (mergeAll_keyfun); hence the bundle unified() returns holds no two records with one identifier URI and kind (c08_unified_nodupkey), and unifying it again merges nothing: its _unified_records() is the record list of the first result itself, nothing written (c08_unifiedRecords_noop, c08_unified_twice_noop, c08_unified_idempotent_reach for every reachable state; concrete instance).",
         note=A_COMMON + " Identified membership records are not claimed.",
         technique="Lean 4 list lemmas on the placement pass + op-sequence correspondence + independent unification spec",
         design="§4.C08"),
